@@ -22,8 +22,10 @@ LastOf(s) == s[Len(s)]
 Grew(a, b) == Len(b) = Len(a) + 1
 Matches(e, tk) == e.t = tk.t /\ e.tag = tk.tag
 
+\* N is fixed BEFORE Init so that `N \in [Inst -> Counts]` is a membership test (a scatter of 12 instances
+\* has |Counts|^12 count vectors: they must not be enumerated)
 TInit == /\ tid \in 1..Len(Traces) /\ l = 2
-         /\ Init /\ N = [i \in Inst |-> Traces[tid][1].N[i]]
+         /\ N = [i \in Inst |-> Traces[tid][1].N[i]] /\ Init
 
 OnP3 == /\ Ev.p = "p3"
         /\ \/ Ev.by = "in" /\ (InFwdPut \/ InFwdTerm)
